@@ -171,18 +171,28 @@ Theorem C03_lookup_unrepaired_refuted : exists xa xb : list R,
 Proof. exact lookup_all_unstable_refuted. Qed.
 Print Assumptions C03_lookup_unrepaired_refuted.
 
-Theorem C03_lookup_prefix_clean (j : nat) (a0 : R) (rest xb : list R) :
-  Forall (fun a => isValid Rops a = true) (a0 :: rest) ->
-  let xa := repeat (sentinel Rops) j ++ a0 :: rest in
-  rdfiOf Rops true xa = (j - 1)%nat /\
-  (rest <> [] \/ (1 <= j)%nat ->
-   Forall (fun a => isValid Rops a = true) (fst (snd (lookupTable Rops true xa xb)))).
-Proof. exact (lookup_prefix_clean j a0 rest xb). Qed.
-Print Assumptions C03_lookup_prefix_clean.
+(* after the repair the matrix-composition table never holds the -1 sentinel, whatever the backend returned (any pattern
+   of missing results): entries without a result take the value of the size class below *)
+Theorem C03_lookup_no_sentinel (xa xb : list R) :
+  Forall (fun a => isValid Rops a = true) (fst (snd (lookupTable Rops true xa xb))).
+Proof. exact (lookup_no_sentinel xa xb). Qed.
+Print Assumptions C03_lookup_no_sentinel.
+
+Theorem C03_lookup_index_first_stable (xa : list R) j : find_first (map (isValid Rops) xa) = Some j ->
+  rdfiOf Rops true xa = Nat.max (j - 1) 0.
+Proof. exact (lookup_index_first_stable xa j). Qed.
+Print Assumptions C03_lookup_index_first_stable.
+
+(* size classes added during the run: the table stays free of sentinels for every backend answer *)
+Theorem C03_extend_no_sentinel (ta tb na nb : list R) : ta <> [] ->
+  Forall (fun a => isValid Rops a = true) ta ->
+  Forall (fun a => isValid Rops a = true) (fst (extendTable Rops true ta tb na nb)).
+Proof. exact (extend_no_sentinel ta tb na nb). Qed.
+Print Assumptions C03_extend_no_sentinel.
 
 (* ---- binary growth rate: no division by zero ---------------------------------------------------------------------- *)
-(* for every effective-diffusion function, matrix composition, molar-volume ratio and table entry (incl. the -1
-   sentinel and zeroed tables) both denominators of the growth rate of a size class are non-zero *)
+(* for every effective-diffusion function, matrix composition, molar-volume ratio and table entry (incl. zeroed
+   tables) both denominators of the growth rate of a size class are non-zero *)
 Theorem C03_growth_denominators_nonzero (eff : R -> R) x ratio epsMin Rb a b :
   0 < epsMin -> 0 < Rb ->
   fst (growthDenoms Rops eff true x ratio epsMin Rb a b) <> 0 /\
